@@ -309,6 +309,95 @@ def run(ck):
         ck.case("%s-%s" % (x.cat, y.cat), key=(x.label, y.label), nontrivial=a is not b,
                 sample={"a": x.label, "b": y.label, "eq": bool(eq), "ne": bool(ne)})
 
+    # ---- directed family A: one NodeMaker is handed BOTH caps of a mutable object (the way a writeable directory hands
+    # over a child), the node is kept alive, then the same NodeMaker is asked for the read cap alone. The two requests
+    # name different cap strings, so the nodes must be unequal (and must not collapse in a set); the node returned for
+    # the read cap must carry the read cap string and (file nodes) equal an independent node of that same string.
+    keep_alive = []
+    for kind in M.KINDS:
+        if not (kind.mutable and kind.level == "w"):
+            continue
+        wobj = M.build(uri, kind, M.rand_fields(rng, kind))
+        wcap, rcap = wobj.to_string(), wobj.get_readonly().to_string()
+        nm_a = mk()
+        n_rw = nm_a.create_from_cap(wcap, rcap)
+        keep_alive.append(n_rw)
+        reference = mk().create_from_cap(rcap)
+        for slot, n_ro in (("roslot", nm_a.create_from_cap(None, rcap)), ("single", nm_a.create_from_cap(rcap))):
+            ck.hit("pair-then-readcap:" + type(n_rw).__name__)
+            ck.mon("eq-iff-cap-strings-equal")
+            w = {"class": type(n_rw).__name__, "kind": kind.name, "lookup": slot, "writecap": show(wcap),
+                 "readcap": show(rcap), "same_object": n_rw is n_ro, "ro_node_get_uri": show(n_ro.get_uri())}
+            if (n_rw == n_ro) or not (n_rw != n_ro):
+                bad("eq-true-for-different-cap-strings/nodemaker-pair-then-readcap",
+                    "%s: node made from (writecap, readcap) and node then made by the same NodeMaker from the readcap "
+                    "alone compare equal although their cap strings differ" % type(n_rw).__name__, w)
+            else:
+                try:
+                    collapsed = len({n_rw, n_ro}) != 2
+                except TypeError:
+                    collapsed = False
+                if collapsed:
+                    bad("eq-true-for-different-cap-strings/nodemaker-pair-then-readcap",
+                        "%s: nodes of different cap strings collapse in a set" % type(n_rw).__name__, w)
+            if n_ro.get_uri() == rcap and type(n_ro).__name__ != "DirectoryNode":
+                # equal cap strings -> equal, equal hash (DirectoryNode identity-eq is already reported by the pool)
+                if not (n_ro == reference) or (n_ro != reference) or hash(n_ro) != hash(reference):
+                    bad("eq-false-for-equal-cap-strings/nodemaker-pair-then-readcap",
+                        "%s: node returned for the readcap after a (writecap, readcap) request is unequal to / hashes "
+                        "unlike an independent node of the same readcap string" % type(n_ro).__name__, w)
+
+    # ---- directed family B: non-canonical spellings. Every base32 field of a canonical cap string gets every other
+    # last character. The strings differ, so whenever the parser accepts the variant as a real cap, that cap (and the
+    # node a NodeMaker builds from it) must NOT compare equal to the cap / node of the canonical string. Refusal
+    # (UnknownURI / exception) is fine.
+    b32chars = b"abcdefghijklmnopqrstuvwxyz234567"
+    canon = []
+    for kind in M.KINDS:
+        canon.append((kind.name, M.fmt(kind, M.rand_fields(rng, kind))))
+    for n in (2, 7):
+        canon.append(("LIT-%dbytes" % n, uri.LiteralFileURI(M.rand_bytes(rng, n)).to_string()))
+    for kname, s in canon:
+        try:
+            c0 = uri.from_string(s)
+        except Exception:  # noqa
+            continue
+        if type(c0).__name__ == "UnknownURI":
+            continue
+        parts = s.split(b":")
+        for fi, p in enumerate(parts):
+            if fi < 2 or len(p) < 2 or p.isdigit() or any(ch not in b32chars for ch in p):
+                continue
+            for ch in b32chars:
+                if ch == p[-1]:
+                    continue
+                s1 = b":".join(parts[:fi] + [p[:-1] + bytes([ch])] + parts[fi + 1:])
+                ck.hit("noncanonical-last-char:%d-char-field" % len(p) if len(p) in (26, 52) else "noncanonical-last-char:lit")
+                try:
+                    c1 = uri.from_string(s1)
+                except Exception:  # noqa
+                    ck.hit("noncanonical-last-char-refused")
+                    continue
+                if type(c1).__name__ == "UnknownURI":
+                    ck.hit("noncanonical-last-char-refused")
+                    continue
+                ck.hit("noncanonical-last-char-accepted")
+                ck.mon("eq-iff-cap-strings-equal")
+                w = {"class": type(c1).__name__, "kind": kname, "canonical_string": show(s), "variant_string": show(s1),
+                     "variant_to_string": show(c1.to_string()), "field_chars": len(p)}
+                if (c1 == c0) or not (c1 != c0):
+                    bad("eq-true-for-different-cap-strings/noncanonical-base32-last-char",
+                        "%s: cap parsed from a string that differs from the canonical one only in the last character of a "
+                        "base32 field compares equal to the canonical cap" % type(c1).__name__, w)
+                    try:
+                        n0, n1 = mk().create_from_cap(s), mk().create_from_cap(s1)
+                        if type(n1).__name__ not in ("UnknownNode", "DirectoryNode") and n0 == n1:
+                            bad("eq-true-for-different-cap-strings/noncanonical-base32-last-char-node",
+                                "%s: nodes made from two different cap strings (non-canonical last character) compare equal"
+                                % type(n1).__name__, dict(w, node_class=type(n1).__name__))
+                    except Exception:  # noqa
+                        pass
+
     # thorough: every shard draws its own pool (ck.rng is per shard), so shards add pools, not slices
     for x in pool:
         if ck.out_of_time():
@@ -346,6 +435,9 @@ def run(ck):
     ck.require_reach(*["single-field-neighbour:" + t for t in
                        ("chk:key", "chk:ueb", "chk:k", "chk:N", "chk:size", "ssk:key", "ssk:fingerprint",
                         "mdmf:key", "mdmf:fingerprint", "lit:data")])
+    ck.require_reach("pair-then-readcap:MutableFileNode", "pair-then-readcap:DirectoryNode",
+                     "noncanonical-last-char:52-char-field", "noncanonical-last-char:26-char-field",
+                     "noncanonical-last-char:lit", "noncanonical-last-char-refused")
     ck.require_reach(*["equal-twins:" + c for c in
                        ("ImmutableFileNode", "LiteralFileNode", "MutableFileNode", "DirectoryNode", "UnknownNode",
                         "CHKFileURI", "LiteralFileURI", "WriteableSSKFileURI", "ReadonlyMDMFFileURI",
